@@ -302,7 +302,7 @@ def _install():
         try:
             if os.environ.get("TESTREC_PURITY", "1") == "1":
                 _STATE["procs"].append((self, _fp(self), _STATE["test"]))
-                _session_event(_opname(), True)
+                _session_event(_opname(), True, new=self)
             if _STATE["test"] != "?" and _provenance_eq_Procedure is not None:
                 _STATE["last_proc"] = self
                 _STATE["last_proc_rp"] = self
@@ -338,13 +338,16 @@ def _fp(p):
 # and one closing event when the test ends (covers operations that raised).  One more session per
 # file: the Procedures created at import time (platform libraries, module-level fixtures), observed
 # again when all tests of the file have run.
-def _session_event(op, ok):
+def _session_event(op, ok, new=None):
+    """the session's handles are exactly the Procedures whose creation was recorded as an event of this session"""
     ses = _STATE.get("session")
     if ses is None:
         return
-    local = [t for t in _STATE["procs"] if t[2] == _STATE["test"]]
-    ses["trace"]["events"].append({"op": op, "ok": ok, "fps": [_fp(p) for p, _, _ in local], "cfps": []})
-    ses["meta"].append({"op": op, "ok": ok, "exc": "", "handles": len(local)})
+    hs = ses.setdefault("handles", [])
+    if new is not None:
+        hs.append(new)
+    ses["trace"]["events"].append({"op": op, "ok": ok, "fps": [_fp(p) for p in hs], "cfps": []})
+    ses["meta"].append({"op": op, "ok": ok, "exc": "", "handles": len(hs)})
 
 
 def _session_close():
@@ -358,6 +361,7 @@ def _session_close():
             _STATE["session"] = ses
             _session_event("(test end)", False)
             _STATE.pop("session", None)
+            ses.pop("handles", None)
             _emit({"kind": "session", "test": ses["test"], "trace": ses["trace"], "meta": ses["meta"]})
         finally:
             _STATE["busy"] = False
